@@ -198,7 +198,9 @@ func (c *ctx) runOp(line string) string {
 }
 
 func (c *ctx) checkAlloc(key string, alloc uint64, received, capBuf int, line string) {
-	bound := uint64(4*received+capBuf) + allocSlack
+	// io.ReadAll grows its buffer geometrically (x1.25 once large): the slices it allocates on the
+	// way add up to about six times the bytes read; "in proportion" is a constant factor, so 8x.
+	bound := uint64(8*received+capBuf) + allocSlack
 	if alloc > bound {
 		c.rep.Fail(key, fmt.Sprintf("decoding %d received bytes allocated %d bytes (bound %d)", received, alloc, bound), []string{line})
 	}
